@@ -64,7 +64,10 @@ var (
 	embDef   = &model.Schema{Fields: []model.SField{{Label: "b", Marker: "?", Val: intV()}}, Def: true, DefName: "#E0"}
 	embDefN  = &model.Schema{Fields: []model.SField{{Label: "a", Marker: "?", Val: structV(nestBopt)}}, Def: true, DefName: "#E1"}
 	embPat   = &model.Schema{Pats: []model.SPat{{Src: `=~"^a"`, Val: intV()}}, CloseHere: true}
-	nestC    = &model.Schema{Fields: []model.SField{{Label: "c", Marker: "?", Val: intV()}}}
+	// an open struct with an embedding of its own, used as a field value
+	// (embeddings at two nesting levels)
+	nestEmb = &model.Schema{Embeds: []*model.Schema{{Fields: []model.SField{{Label: "c", Marker: "?", Val: intV()}}}}}
+	nestC   = &model.Schema{Fields: []model.SField{{Label: "c", Marker: "?", Val: intV()}}}
 	// definitions used as field values (closed subtrees reached through a field)
 	defN0 = &model.Schema{Fields: []model.SField{{Label: "b", Val: structV(nestC)}}, Embeds: []*model.Schema{{Fields: []model.SField{{Label: "a", Marker: "?", Val: intV()}}, CloseHere: true}}, Def: true, DefName: "#N0"}
 	defN1 = &model.Schema{Fields: []model.SField{{Label: "a", Marker: "?", Val: intV()}, {Label: "b", Val: structV(nestC)}}, Def: true, DefName: "#N1"}
@@ -84,6 +87,7 @@ func members(full bool) []member {
 		{src: "...", apply: func(s *model.Schema) { s.Ellipsis = true }},
 		emb(embLit), emb(embClose), emb(embDef), emb(embDefN), emb(embPat),
 		fld("b", "?", structV(defN0)), fld("b", "", structV(defN1)), fld("b", "?", structV(defN2)), emb(&model.Schema{Fields: []model.SField{{Label: "c", Val: intV()}}}),
+		fld("a", "", structV(nestEmb)), fld("c", "?", structV(nestEmb)),
 	}
 	if full {
 		ms = append(ms, fld("a", "!", oneV()), fld("b", "", oneV()), fld("c", "", intV()), fld("c", "!", intV()),
